@@ -17,7 +17,10 @@ built-in defaults in force (DESIGN 3/C16).
     force has passed on the idle queue): the harness's reference clock logs a Tick for every full period the released
     worker has not answered, and the specification does not let time pass beyond IdleSlack periods inside one wait.
     Senders are also created through the public GetInstance (one child process each) with every kind of context option
-    and stopped through every function that stops them; records the pack layer cannot encode are mixed in."""
+    and stopped through every function that stops them; records the pack layer cannot encode are mixed in.
+    gen stopmix makes the stop request while buffer AND queue hold records (the emitted order must continue); a timed
+    wait that begins with a record queued must return it (also with a waiting time of 0 or below); a process taken
+    down by the sender's worker is a recorded event (Crash) that no action of the specification matches."""
 import json, os
 import vf
 
@@ -57,19 +60,81 @@ def tick_selftest(run, out, meta):
     raise vf.MachineryError("self-test found no idle wait in a history of gen reconf")
 
 
+def order_selftest(run, out, meta):
+    """binding of the order behind a stop request: in a history of gen stopmix with two hand-overs after the request, the
+    two recorded hand-overs exchanged (newer records first) are refused"""
+    for job in meta.get("jobs", []):
+        for h in vf.split_histories(open(os.path.join(out, job["trace"])).read().splitlines()):
+            if json.loads(h[0]).get("gen") != "stopmix":
+                continue
+            evs = [json.loads(x).get("ev") for x in h]
+            if "StopRet" not in evs:
+                continue
+            sends = [i for i in range(evs.index("StopRet"), len(h)) if evs[i] == "Send"]
+            if len(sends) < 2 or h[sends[0]] == h[sends[1]]:
+                continue
+            hh = list(h)
+            hh[sends[0]], hh[sends[1]] = h[sends[1]], h[sends[0]]
+            p = os.path.join(out, "_selftest_order.ndjson")
+            open(p, "w").write("\n".join(hh) + "\n")
+            n0 = run.trace_states
+            acc, hwm, nn, r = run.validate_file(job["spec"], p)
+            run.trace_states = n0
+            run.selftests["Trace_ZipSender:order_behind_stop"] = {"exchanged_hand_overs_rejected": not acc, "at_event": hwm, "first_exchanged": sends[0] + 1}
+            if acc or hwm != sends[0] + 1:
+                raise vf.MachineryError("binding self-test of the order behind a stop request failed: accepted=%s hwm=%s" % (acc, hwm))
+            vf.log("SELFTEST Trace_ZipSender order behind stop %s" % run.selftests["Trace_ZipSender:order_behind_stop"])
+            return
+    raise vf.MachineryError("self-test found no history of gen stopmix with two hand-overs behind the stop request")
+
+
+def progress_selftest(run, out, meta):
+    """binding of 'a wait that begins with a record queued returns it': a recorded Take behind a Poll that saw a
+    non-empty queue (no producer running) is replaced by an expiry of the wait -> refused at that event; the same
+    expiry reported while a producer may be running (no qlen) is a step of the specification"""
+    for job in meta.get("jobs", []):
+        for h in vf.split_histories(open(os.path.join(out, job["trace"])).read().splitlines()):
+            if json.loads(h[0]).get("gen") not in ("stopmix", "gated"):
+                continue
+            for i in range(2, len(h)):
+                e, b = json.loads(h[i]), json.loads(h[i - 1])
+                if e.get("ev") == "Take" and b.get("ev") == "Poll" and b["st"].get("qlen", 0) > 0:
+                    res = {}
+                    for tag, keep in (("sure", True), ("racing", False)):
+                        st = dict(b["st"])
+                        if not keep:
+                            del st["qlen"]
+                        idle = json.dumps({"ev": "Idle", "st": st}, separators=(",", ":"))
+                        p = os.path.join(out, "_selftest_idle_%s.ndjson" % tag)
+                        open(p, "w").write("\n".join(h[:i] + [idle]) + "\n")
+                        n0 = run.trace_states
+                        acc, hwm, nn, r = run.validate_file(job["spec"], p)
+                        run.trace_states = n0
+                        res[tag] = (acc, hwm == i + 1)
+                    ok = (not res["sure"][0]) and res["sure"][1] and res["racing"][0]
+                    run.selftests["Trace_ZipSender:queued_record_is_taken"] = {
+                        "expiry_with_record_queued_rejected_at_that_event": (not res["sure"][0]) and res["sure"][1],
+                        "same_expiry_while_a_producer_may_run_accepted": res["racing"][0]}
+                    if not ok:
+                        raise vf.MachineryError("binding self-test of the worker's progress failed: %s" % res)
+                    vf.log("SELFTEST Trace_ZipSender progress %s" % run.selftests["Trace_ZipSender:queued_record_is_taken"])
+                    return
+    raise vf.MachineryError("self-test found no Poll with a record queued followed by Take")
+
+
 def body(run):
     th = run.thorough()
     w = run.pick(4, 16)
     never = None
     for cfg in (THOROUGH if th else QUICK):
-        run.mc("MC_ZipSender", cfg=cfg, workers=w, coverage=True)
+        run.mc("MC_ZipSender", cfg=cfg, workers=w, coverage=True, heap=run.pick("3g", "8g"))   # (capped: other JVMs share the box)
         zero = set(run.mc_runs[-1].get("actions_never_taken") or [])
         never = zero if never is None else (never & zero)
     run.extra["actions_never_taken_in_any_configuration"] = sorted(never or [])
     if never:
         raise vf.MachineryError("vacuity: actions never taken in any model-checking configuration: %s" % sorted(never))
     for cfg, inv in ASIS:
-        run.mc("MC_ZipSender", cfg=cfg, expect_violation=inv, workers=2)
+        run.mc("MC_ZipSender", cfg=cfg, expect_violation=inv, workers=2, heap="2g")
 
     out, meta = run.drive("c16", timeout=run.pick(600, 2400))
     run.absorb(meta)
@@ -91,6 +156,8 @@ def body(run):
         run.selftest(out, gate, gen="cex", field="raw")
         run.selftest(out, gate, gen="defaults", field="given")
         run.selftest(out, gate, gen="api", field="via")
+        order_selftest(run, out, gate)
+        progress_selftest(run, out, gate)
         tick_selftest(run, out, gate)
     run.assumptions += [
         "a record's encoding is what the pack layer writes for it (pack.WritePack on an identical twin, computed by the harness "
@@ -100,8 +167,8 @@ def body(run):
         "decompression and ZipPack.GetRecords on them: TLC compares count, status, payload bytes and the decoded [line, time, content length] list",
         "record times are virtual, >= 1 (0 is the implementation's 'no first record yet' marker) and below 2^30; the worker's "
         "timed wait on the queue is real (<= 15 ms wherever the harness lets it expire)",
-        "the only judgement about real time: after releasing the held worker into its timed wait with a waiting time w > 0 in force, "
-        "the harness sleeps full periods of max(w, 20 ms) and logs a Tick after each one the worker has not answered; the "
+        "the only judgement about real time: after releasing the held worker into its timed wait with a waiting time w in force "
+        "(w <= 0: a wait of no length), the harness sleeps full periods of max(w, 20 ms) and logs a Tick after each one the worker has not answered; the "
         "specification refuses the 61st Tick inside one wait (a wait that outlasts 60 periods >= 1.2 s of a waiting time <= 12 ms; "
         "observed on the unchanged code under a load average above 100: at most 4).  The clock runs in the same process as the "
         "worker: load delays both, a starved process stops the clock too -- load can only lose detection",
@@ -119,6 +186,13 @@ def body(run):
         "a refused Add (queue full) was never accepted: the record must not appear anywhere; no record is handed over after the "
         "stop request; ApplyConfig is only called while the worker is held or absent (golib does not synchronise it)",
         "a worker that does not reach its next hook within 120 s is a harness failure (exit 2), never a violation",
+        "a timed wait of the worker that begins with a record queued must return a record, whatever the waiting time in force (0 and "
+        "negative included); judged only where no producer can be running (the worker was released by the harness, which makes all "
+        "Add calls itself and had none in flight: the event then carries qlen); elsewhere a record logged as added may not have been put yet",
+        "every history runs in a child process of the driver (chunks of up to 60; gen api one each); the child writes each event to disk "
+        "at once.  A child that dies of a Go panic / fatal error in a goroutine the sender started, with golib code innermost, is recorded as "
+        "event Crash behind what it had written (no action of the specification: the history is refused) and the run goes on behind that "
+        "history; any other death of a child is a harness failure (exit 2)",
         "the private state projected at every worker step (buffer length, counter, first time, settings, queue length) is read "
         "by the goroutine that owns it, through the verif hook",
     ]
